@@ -155,12 +155,14 @@ func (s *l3srv) start(synced bool) error {
 	return fmt.Errorf("server %s on port %d did not accept a session", s.name, s.port)
 }
 
-func (s *l3srv) stop() {
+func (s *l3srv) stop() error {
 	s.up.Store(false)
-	if s.srv != nil {
-		s.srv.Stop()
-		s.srv = nil
+	if s.srv == nil {
+		return nil
 	}
+	err := s.srv.Stop()
+	s.srv = nil
+	return err
 }
 
 // l3cli is a client session that is opened again after its server went away.
@@ -256,6 +258,7 @@ type l3run struct {
 	quit    atomic.Bool
 	divert  atomic.Bool // the primary was put back to an older copy: the not-ahead sampler stops
 	stats   sync.Map
+	sqlMu   sync.RWMutex
 	keyMu   sync.Mutex
 	keys    map[string]bool
 	seenMu  sync.Mutex
@@ -471,7 +474,23 @@ func (s *l3run) committer(g int, wg *sync.WaitGroup, left *atomic.Int64) {
 			return err
 		}
 		hdr = nil
+		// store.preCommitWith holds indexersMux.RLock while its callback (ExecAll, Delete, SetReference read the
+		// index) takes it again; a SQL tx beginning in between queues InitIndexing's write lock and the primary
+		// deadlocks with the store mutex held (observed, stacks in /verif/proposed/C07-l3-precommitwith-initindexing-
+		// deadlock-stacks.txt; not a replication matter). The workload therefore never overlaps the two.
+		switch op {
+		case "sql":
+			s.sqlMu.Lock()
+		case "execall", "delete", "reference":
+			s.sqlMu.RLock()
+		}
 		err := k.do(f)
+		switch op {
+		case "sql":
+			s.sqlMu.Unlock()
+		case "execall", "delete", "reference":
+			s.sqlMu.RUnlock()
+		}
 		if err != nil {
 			if transient(err) {
 				s.count("commit-interrupted")
@@ -571,7 +590,14 @@ func (s *l3run) disturb(kind string, r *rand.Rand) {
 	case "replica-restart":
 		rp := s.reps[r.IntN(len(s.reps))]
 		rp.mu.Lock()
-		rp.stop()
+		if err := rp.stop(); err != nil {
+			// the old instance may still be running inside this process: starting another one over the same
+			// directory would not be a restart
+			s.c.Inconclusive(fmt.Sprintf("[%s] %s did not stop cleanly: %v", s.cf.Name, rp.name, err))
+			s.quit.Store(true)
+			rp.mu.Unlock()
+			return
+		}
 		time.Sleep(time.Duration(r.IntN(300)) * time.Millisecond)
 		if err := rp.start(s.cf.Synced); err != nil {
 			s.viol("l3/replica-server-does-not-restart", fmt.Sprintf("%s: %v", rp.name, err))
@@ -600,7 +626,12 @@ func (s *l3run) disturb(kind string, r *rand.Rand) {
 		}
 	case "primary-restart", "primary-checkpoint":
 		s.pri.mu.Lock()
-		s.pri.stop()
+		if err := s.pri.stop(); err != nil {
+			s.c.Inconclusive(fmt.Sprintf("[%s] the primary did not stop cleanly: %v", s.cf.Name, err))
+			s.quit.Store(true)
+			s.pri.mu.Unlock()
+			return
+		}
 		if kind == "primary-checkpoint" && s.backup == "" {
 			// a copy of the stopped primary, used later to put the primary back in time
 			s.backup = filepath.Join(s.root, "primary-checkpoint")
@@ -972,7 +1003,11 @@ func (s *l3run) divergence(old [][32]byte) {
 	}
 	s.divert.Store(true)
 	s.pri.mu.Lock()
-	s.pri.stop()
+	if err := s.pri.stop(); err != nil {
+		s.pri.mu.Unlock()
+		s.c.Inconclusive(fmt.Sprintf("[%s] divergence: the primary did not stop cleanly: %v", s.cf.Name, err))
+		return
+	}
 	os.RemoveAll(s.pri.dir)
 	err := sth.CopyDir(s.backup, s.pri.dir)
 	if err == nil {
